@@ -212,6 +212,13 @@ def _run_property(prop_name, tier, seed, replay, verbose):
             log('MC %s: %d distinct states, %d generated, depth %d, %.1fs'
                 % (spec.get('cfg') or spec['module'], r.distinct, r.generated, r.depth, r.wall))
 
+    proofs = []
+    if replay is None:
+        for m in getattr(prop, 'PROOFS', ()):
+            pr = tlc.prove(m)
+            proofs.append(pr)
+            log('TLAPS %s: all %d obligations proved, %.1fs' % (m, pr['obligations'], pr['wall_s']))
+
     # ---- 2. cases --------------------------------------------------------
     gen_info = {}
     if replay is not None:
@@ -278,6 +285,7 @@ def _run_property(prop_name, tier, seed, replay, verbose):
         distinct_nontrivial=len(nontriv),
         rule=prop.RULE,
         model_checking=mc_report,
+        tlaps_proofs=proofs,
         mc_states=mc_states, mc_transitions=mc_trans,
         judge_states=jr['states'], judge_transitions=jr['transitions'],
         cases=len(cases),
